@@ -1,17 +1,24 @@
 /-
 Model of the IUP ("interpolate untouched points") delta optimiser and of the reader-side
-inference of omitted deltas, in exact integer / rational arithmetic.
+inference of omitted deltas.
 
 writer  write-fonts/src/tables/gvar/iup.rs
           must_encode_at, iup_must_encode, iup_segment, can_iup_in_between,
-          iup_initial_lookback, iup_contour_optimize_dp, iup_contour_optimize, iup_delta_optimize
+          iup_initial_lookback, iup_contour_optimize_dp, iup_contour_optimize (both "assemble
+          solution" loops are `walkLim`), iup_delta_optimize
+spec    OpenType gvar "Inferred deltas for un-referenced point numbers": `inferSpec`
+          (nearest retained point before / after in cyclic contour order, `prevReq` / `nextReq`)
 reader  skrifa/src/outline/glyf/deltas.rs
-          interpolate_deltas, Jiggler::{shift, interpolate}
+          interpolate_deltas  -> `scanFirst`, `innerLoop`, `readerContourCalls`, `readerCalls`
+                                 (the loops, as the list of `Jiggler` calls they make)
+          Jiggler::{shift, interpolate} in 16.16 -> `applyCall`, `fxInterpAxis`, `readerInterpolate`
+                                 (bit-exact; font-types `Fixed` add/sub/mul/div as `fx*`)
+          the same per-point computation in exact arithmetic -> `readerAxis`, `readerExactAt`
 
-Inputs are INTEGER coordinates and deltas (the f64 comparisons of the Rust are then exact, except
-the interpolated value `d1 + (c - c1) * scale`, which the model keeps as an exact fraction).
-The tolerance is the rational `tn / td` with `td > 0`.  An interpolated value is a fraction
-`(num, den)` with `den > 0`.
+Writer inputs are INTEGER coordinates and deltas (the f64 comparisons of the Rust are then exact,
+except the interpolated value `d1 + (c - c1) * scale`, which the model keeps as an exact fraction:
+the f64 rounding of that value is NOT modelled).  The tolerance is the rational `tn / td` with
+`td > 0`.  An interpolated value is a fraction `(num, den)` with `den > 0`.
 -/
 import FontVerif.Model.Base
 namespace FontVerif.Iup
